@@ -266,6 +266,22 @@ def drop_closes(r, F):
         ok = got == ["closed", "memory", "storage", "flush_on_close"]
     r.require(ok, d, "Drop spawns close_inner(closed, memory, storage, flush_on_close)", "dropping the last handle performs the same graceful close",
               "dropping the hybrid cache does not run close_inner with its own flag / tiers", ln=d.lo)
+    # the drop path is unconditional, and nobody but close_inner itself flips the `closed` flag (a guard in Drop that sets it first makes close_inner return at once:
+    # neither the flush nor the store's close would run)
+    spd = [b_.idx for g_, b_ in sp if g_ is d]
+    inner_ok = all(g_.must_pass(0, [b_.idx]) for g_, b_ in calls)       # inside the spawned future close_inner is called on every path
+    r.require(bool(spd) and d.must_pass(0, spd) and inner_ok, d, "Drop closes unconditionally", "every path of Drop::drop spawns the future, every path of the future calls close_inner",
+              "Drop for the hybrid cache's Inner can return without spawning close_inner (an `already closed` guard or another condition): the last handle's drop then neither flushes memory nor closes the store", ln=d.lo)
+    writers = set()
+    for f in F.all_fns("P"):
+        if f.crate.name != "foyer" or "::tests::" in f.short:
+            continue
+        for b_ in f.calls_to(r"atomic::Atomic::<bool>::(fetch_or|store|swap|fetch_and|fetch_xor|fetch_nand|compare_exchange\w*|fetch_update)$"):
+            sl = backslice(f, b_.term.args[0], "prov")
+            if any(n == "closed" and of.endswith("cache::Inner") for of, n in sl.fields) or "closed" in sl.upvars or re.search(r"Inner::close_inner", f.short):
+                writers.add(F.P.get(f.root, f).short.rsplit("::", 1)[-1])
+    r.require(writers == {"close_inner"}, None, "only close_inner writes the closed flag", "writers of Inner.closed: %s" % sorted(writers),
+              "the `closed` flag is written outside close_inner (%s): close_inner then believes the cache is already closed and skips the flush and the store's close" % sorted(writers))
     # and close() forwards the same four
     c = F.fn(HC + "::Inner::close::{closure#0}")
     cs = c.calls_to(r"Inner::<K, V, S>::close_inner$")
@@ -284,7 +300,7 @@ def run(chk, F):
     chk.run_rule("C15.engine-refuses", "enqueue/delete test `active` before allocating or submitting; close deactivates then waits", 4, engine_refuses, F)
     chk.run_rule("C15.queue-gate", "the submit-queue admission counter is released for every received entry by the amount added for it; the gate drops only above the threshold", 6, queue_gate, F)
     chk.run_rule("C15.engine-waits", "BlockEngine::wait awaits a Wait round-trip through every flusher and the reclaimers; waiters are answered only on io completion", 4, engine_waits, F)
-    chk.run_rule("C15.drop-closes", "Drop and close() run close_inner with the cache's own flag and tiers", 2, drop_closes, F)
+    chk.run_rule("C15.drop-closes", "Drop and close() run close_inner with the cache's own flag and tiers; Drop is unconditional; only close_inner writes the closed flag", 4, drop_closes, F)
     chk.run_rule("C15.enqueue-guards-exact", "no extra condition guards the disk write of a flushed / evicted entry", 5, C12.enqueue_guards_exact, F)
     chk.run_rule("C15.inmem-guard", "every Store::enqueue of the hybrid layer is control-dependent on location != InMem", 5, C12.inmem_guard, F)
     from rules import mustcall
